@@ -122,6 +122,10 @@ fn check_plan(c: &Ctx<'_>, plan: &FaultPlan, rep_out: &mut RunReport) -> Option<
     rep_out.bump("fault.sink.eintr", rep.stats.eintr_fired);
     rep_out.bump("fault.sink.zero", rep.stats.zero_fired);
     let b = c.base.bytes();
+    if out.is_budget() {
+        rep_out.bump("discarded_budget_in_faulted_run", 1);
+        return None;
+    }
     if let Outcome::Panic(m) = &out {
         return Some(("F1-panic".into(), format!("render_to panicked under {plan:?}: {m}")));
     }
